@@ -332,8 +332,10 @@ func checkC09(p *core.Program, r *core.Report) {
 			n++
 			c := core.Common(in)
 			key := "hub.ReportServiceShipID forwards (ski, shipID)"
-			if core.Canon(c.Args[0]) == ssa.Value(hr.Params[1]) && core.Canon(c.Args[1]) == ssa.Value(hr.Params[2]) {
-				r.OK(R3, key, p.Pos(in.Pos()), "ServiceShipIDUpdate(ski, shipID)")
+			if _, isCall := in.(*ssa.Call); !isCall {
+				r.Fail(R3, key, p.Pos(in.Pos()), "the SHIP ID is forwarded to the application asynchronously (go/defer): it can arrive after the remote-device setup callback it has to precede")
+			} else if core.Canon(c.Args[0]) == ssa.Value(hr.Params[1]) && core.Canon(c.Args[1]) == ssa.Value(hr.Params[2]) {
+				r.OK(R3, key, p.Pos(in.Pos()), "ServiceShipIDUpdate(ski, shipID), synchronously")
 			} else {
 				r.Fail(R3, key, p.Pos(in.Pos()), "the hub does not forward the reported (SKI, SHIP ID) pair unchanged to the application")
 			}
